@@ -25,6 +25,7 @@ Not addressed: integer weights == replication.  Excluded: 'tied' / 'spherical'.
 import contextlib
 import io
 import itertools
+import json
 import math
 import os
 import re
@@ -464,7 +465,7 @@ def run_spec_mutant(variant):
 
 
 # --------------------------------------------------------------------------- binding A: real fits
-KINDS = ["separated", "overlapping", "duplicated", "collinear", "identical", "zerovar", "single", "lattice", "boundary"]
+KINDS = ["separated", "overlapping", "duplicated", "collinear", "identical", "zerovar", "single", "lattice", "boundary", "separated_wide"]
 WKINDS = ["unit", "uniform", "exponential", "lognormal6", "nearzero", "exactzero", "integer", "dominant", "zeroblob"]
 
 
@@ -473,13 +474,18 @@ def gen_case(np, seed, i, tier):
     rng = np.random.RandomState((seed * 1000003 + i * 7919 + 15) % (2 ** 32))
     d = 1 + i % 6
     kind = KINDS[(i // 6) % len(KINDS)]
-    wkind = WKINDS[(i // 2 + i // 54) % len(WKINDS)]
-    sizes = [2 * d, 2 * d + 1, 4 * d, 8 * d + 1, 30, 60, 120] + ([200, 300] if tier == "thorough" else [])
+    wkind = WKINDS[(i // 2 + i // 60) % len(WKINDS)]
+    if rng.rand() < 0.25:
+        sizes = [2 * d, 2 * d + 1, 4 * d, 8 * d + 1]
+    else:
+        sizes = [30, 40, 60, 80, 120, 160] + ([200, 300] if tier == "thorough" else [])
     n = max(2 * d, sizes[rng.randint(len(sizes))])
     nb = 1 + rng.randint(4)
+    if kind.startswith("separated"):
+        nb = max(nb, 2)
     centres = rng.uniform(0.15, 0.85, size=(nb, d))
     assign = rng.randint(nb, size=n)
-    if kind == "separated":
+    if kind.startswith("separated"):
         X = centres[assign] + 0.02 * rng.randn(n, d)
     elif kind == "overlapping":
         X = centres[assign] + rng.uniform(0.08, 0.2) * rng.randn(n, d)
@@ -508,7 +514,10 @@ def gen_case(np, seed, i, tier):
         X = 0.5 + 0.6 * rng.randn(n, d)
     X = np.clip(X, 0.0, 1.0)
     scaled = None
-    if rng.rand() < 0.12:
+    if kind == "separated_wide":      # same blobs in the cube [-5, 5]^d
+        scaled = (10.0, -5.0)
+        X = X * 10.0 - 5.0
+    elif rng.rand() < 0.12:
         scaled = [(1e3, 0.0), (1e-3, 0.0), (1.0, 100.0), (10.0, -5.0)][rng.randint(4)]
         X = X * scaled[0] + scaled[1]
     if wkind == "unit":
@@ -552,39 +561,46 @@ def gen_case(np, seed, i, tier):
 
 def monitor_fit(np, gm, X, sample_weight):
     """The mixture predicates of the property's first sentence, evaluated on one fitted GaussianMixture.
-    MONITORING of a numerical routine - not decided by the model.  Returns {predicate: detail} of failures."""
+    MONITORING of a numerical routine - not decided by the model.  Returns {predicate: detail} of the failed
+    predicates (thresholds: weight sum within 1e-9, asymmetry / min eigenvalue within 1e-12 of the matrix
+    scale, mean within 1e-9 (relative) of the bounding box for components of weight > 1e-6).  Predicates whose
+    name ends in '!' are GROSS failures (non-finite parameters, negative weights, sum off by > 1e-9,
+    asymmetric / indefinite covariance, mean outside the box by > 1e-6 of the data scale)."""
     bad = {}
     k = gm.n_components
     wt = np.asarray(gm.weights_, dtype=float)
     if not np.all(np.isfinite(wt)):
-        bad["weights_finite"] = wt.tolist()
+        bad["nonfinite_parameters!"] = {"weights": wt.tolist()}
     else:
         if np.any(wt < 0):
-            bad["weights_nonneg"] = float(wt.min())
+            bad["weights_nonneg!"] = float(wt.min())
         if abs(float(wt.sum()) - 1.0) > 1e-9:
-            bad["weights_sum_one"] = float(wt.sum())
+            bad["weights_sum_one!"] = float(wt.sum())
     cov = np.asarray(gm.covariances_, dtype=float)
     mats = [cov[j] if gm.covariance_type == "full" else np.diag(cov[j]) for j in range(k)]
     for j, C in enumerate(mats):
         if not np.all(np.isfinite(C)):
-            bad.setdefault("cov_finite", []).append(j)
+            bad.setdefault("nonfinite_parameters!", {}).setdefault("covariances", []).append(j)
             continue
         scale = max(1.0, float(np.max(np.abs(C))))
         if float(np.max(np.abs(C - C.T))) > 1e-12 * scale:
-            bad.setdefault("cov_symmetric", []).append((j, float(np.max(np.abs(C - C.T)))))
+            bad.setdefault("cov_symmetric!", []).append((j, float(np.max(np.abs(C - C.T)))))
         ev = float(np.linalg.eigvalsh(0.5 * (C + C.T)).min())
         if ev < -1e-12 * scale:
-            bad.setdefault("cov_psd", []).append((j, ev))
+            bad.setdefault("cov_psd!", []).append((j, ev))
     mu = np.asarray(gm.means_, dtype=float)
     lo, hi = X.min(axis=0), X.max(axis=0)
-    tol = 1e-9 * np.maximum(hi - lo, np.maximum(np.abs(lo), np.abs(hi))) + 1e-300
+    size = np.maximum(hi - lo, np.maximum(np.abs(lo), np.abs(hi))) + 1e-300
     for j in range(k):
         if np.all(np.isfinite(wt)) and wt[j] > 1e-6:
             if not np.all(np.isfinite(mu[j])):
-                bad.setdefault("mean_finite", []).append(j)
-            elif np.any(mu[j] < lo - tol) or np.any(mu[j] > hi + tol):
-                out = float(np.max(np.maximum(lo - mu[j], mu[j] - hi) / np.maximum(hi - lo, 1e-300)))
-                bad.setdefault("mean_in_bbox", []).append((j, float(wt[j]), out))
+                bad.setdefault("nonfinite_parameters!", {}).setdefault("means", []).append(j)
+            else:
+                out = float(np.max(np.maximum(lo - mu[j], mu[j] - hi) / size))   # excursion relative to the data scale
+                if out > 1e-6:
+                    bad.setdefault("mean_in_bbox!", []).append((j, float(wt[j]), out))
+                elif out > 1e-9:
+                    bad.setdefault("mean_in_bbox_tiny", []).append((j, float(wt[j]), out))
     return bad
 
 
@@ -620,12 +636,12 @@ def make_logging(np, real, rec):
 
 
 def well_posed(np, X, w, k):
-    """'Clearly well-posed' input of one mixture fit (the rule under which a monitored failure is reported as
-    a violation): finite data of sampler-like scale (|x| <= 10), every coordinate of the points that carry
-    non-negligible weight (>= 1e-6 of the largest) spreads over >= 1e-3, and there are at least
-    4*k*(d+1) distinct such points."""
+    """'Clearly well-posed' input of one mixture fit - the rule under which a GROSS monitored failure is
+    reported as a violation: finite data with |x| <= 1e6, finite non-negative weights of positive sum, at least
+    4*k*(d+1) distinct points among those that carry non-negligible weight (>= 1e-6 of the largest), and every
+    coordinate of those points spreads over >= 1e-3."""
     n, d = X.shape
-    if not np.all(np.isfinite(X)) or np.max(np.abs(X)) > 10.0:
+    if not np.all(np.isfinite(X)) or np.max(np.abs(X)) > 1e6:
         return False
     ww = np.ones(n) if w is None else np.asarray(w, dtype=float)
     if not np.all(np.isfinite(ww)) or np.any(ww < 0) or not ww.sum() > 0:
@@ -636,11 +652,48 @@ def well_posed(np, X, w, k):
     return bool(np.all(eff.max(axis=0) - eff.min(axis=0) >= 1e-3))
 
 
+def fixed_case(np, j):
+    """Deterministic witnesses that are part of every run (index -1 - j)."""
+    rng = np.random.RandomState(1500 + j)
+    base = dict(i=-1 - j, scaled=None, normalize=False, modifier=1.0, max_iterations=1000, min_points=None, style="sampler",
+                ctype="full", w=None, wkind="unit")
+    if j == 0:    # two unit-variance blobs 100 apart
+        X = np.vstack([rng.randn(30, 2), rng.randn(30, 2) + 100.0])
+        return dict(base, kind="fixed:two-blobs-100-apart", X=X, scaled=(1.0, 0.0))
+    if j == 1:
+        X = np.vstack([rng.randn(40, 1), rng.randn(40, 1) + 100.0])
+        return dict(base, kind="fixed:two-blobs-100-apart", X=X, scaled=(1.0, 0.0), ctype="diag")
+    if j == 2:
+        return dict(base, kind="fixed:identical", X=np.full((24, 3), 0.3), normalize=True)
+    if j == 3:
+        X = rng.rand(60, 3)
+        X[:, 1] = 0.5
+        return dict(base, kind="fixed:zero-variance-coordinate", X=X, normalize=True, modifier=0.05)
+    if j == 4:    # well separated blobs in the cube, one of them with exactly zero weight
+        X = np.clip(np.vstack([0.2 + 0.02 * rng.randn(40, 2), 0.8 + 0.02 * rng.randn(40, 2)]), 0, 1)
+        return dict(base, kind="fixed:zero-weight-blob", X=X, w=np.r_[np.ones(40), np.zeros(40)], wkind="zeroblob", normalize=True, modifier=0.05)
+    if j == 5:    # as the sampler with a cap: n_max_clusters = 2, d = 2
+        X = np.clip(np.vstack([0.2 + 0.02 * rng.randn(40, 2), 0.5 + 0.02 * rng.randn(40, 2), 0.8 + 0.02 * rng.randn(40, 2)]), 0, 1)
+        return dict(base, kind="fixed:three-blobs-cap-2", X=X, normalize=True, max_iterations=1, min_points=8)
+    if j == 6:
+        X = np.clip(np.vstack([0.2 + 0.02 * rng.randn(50, 1), 0.8 + 0.02 * rng.randn(50, 1)]), 0, 1)
+        return dict(base, kind="fixed:two-blobs-1d", X=X, normalize=True, w=np.exp(6 * rng.randn(100)), wkind="lognormal6")
+    X = np.repeat(rng.rand(4, 2), 15, axis=0)
+    return dict(base, kind="fixed:four-points-replicated", X=X, normalize=bool(j % 2), modifier=0.05)
+
+
+N_FIXED = 9
+
+
 def _real_case(args):
     """Worker: one real HierarchicalGaussianMixture fit with the logging mixture installed."""
     seed, i, tier = args
     np, cluster = _G["np"], _G["cluster"]
-    c = gen_case(np, seed, i, tier)
+    if i < 0:
+        c = fixed_case(np, -1 - i)
+        c["d"], c["n"] = c["X"].shape[1], c["X"].shape[0]
+    else:
+        c = gen_case(np, seed, i, tier)
     X, w, d, n = c["X"], c["w"], c["d"], c["n"]
     cfg = {k: c[k] for k in ("i", "d", "n", "kind", "wkind", "scaled", "normalize", "modifier", "max_iterations", "min_points", "style", "ctype")}
     out = {"cfg": cfg, "violations": [], "monitor": [], "trace": None, "fits": 0, "wall": 0.0}
@@ -838,9 +891,9 @@ def main():
 
     _G.update(np=np, cluster=cluster)
     quick = ck.tier == "quick"
-    nreal = 48 if quick else 1080
+    nreal = 108 if quick else 1512
     mp_pool = mp.get_context("fork").Pool(12)     # forked before any thread exists
-    real_async = mp_pool.map_async(_real_case, [(ck.seed, i, ck.tier) for i in range(nreal)], chunksize=1)
+    real_async = mp_pool.map_async(_real_case, [(ck.seed, i, ck.tier) for i in range(-N_FIXED, nreal)], chunksize=1)
 
     # ---- spec: exhaustive generator runs (+ replay workers) and seeded wrong variants, concurrently
     tpool = ThreadPoolExecutor(max_workers=8)
@@ -893,6 +946,7 @@ def main():
     traces, owners = [], []
     mon = {"fits_monitored": 0, "fits_with_failure": 0}
     mon_keys = {}
+    mon_checked = []
     real_summ = {"fits_run": len(real), "gm_fits": 0, "with_split": 0, "evaluations": 0, "asked": 0, "queries": 0,
                  "max_K": 0, "wall_s_sum": 0.0, "by_kind": {}, "by_wkind": {}}
     for o in real:
@@ -903,13 +957,15 @@ def main():
         mon["fits_monitored"] += o["fits"]
         for m in o["monitor"]:
             mon["fits_with_failure"] += 1
+            gross = sorted(p_ for p_ in m["failed"] if p_.endswith("!"))
             for pred_name in m["failed"]:
-                mk = f"monitor:{m['ctype']}:k{m['k']}:{pred_name}" + (":well-posed" if m["well_posed"] else "")
+                mk = f"monitor:{m['ctype']}:k{m['k']}:{pred_name.rstrip('!')}" + (":gross" if pred_name.endswith("!") else "") + \
+                     (":well-posed-input" if m["well_posed"] else "")
                 ent = mon_keys.setdefault(mk, {"count": 0, "example": None})
                 ent["count"] += 1
                 if ent["example"] is None:
                     ent["example"] = {"case": m["case"], "n": m["n"], "detail": m["failed"][pred_name]}
-            if m["well_posed"]:
+            if m["well_posed"] and gross and len(mon_checked) < 40:
                 # reproducible on a clearly well-posed input? refit the pristine class twice on the recorded input
                 again = []
                 for _ in range(2):
@@ -917,21 +973,22 @@ def main():
                     with warnings.catch_warnings():
                         warnings.simplefilter("ignore")
                         old = np.seterr(all="ignore")
+                        st = np.random.get_state()
                         try:
-                            st = np.random.get_state()
                             g.fit(m["X"], m["w"])
-                            np.random.set_state(st)
-                            again.append(sorted(monitor_fit(np, g, m["X"], m["w"])))
-                        except Exception as ex:  # pragma: no cover
-                            again.append(["raised " + repr(ex)])
+                            again.append(set(monitor_fit(np, g, m["X"], m["w"])))
+                        except Exception as ex:
+                            again.append({"raised " + repr(ex)})
                         finally:
+                            np.random.set_state(st)
                             np.seterr(**old)
-                common = set(again[0]) & set(again[1]) & set(m["failed"])
-                for pred_name in sorted(common):
-                    ck.violation(f"monitor:{m['ctype']}:{pred_name}",
-                                 f"MONITORED mixture predicate {pred_name} fails reproducibly on a clearly well-posed input: "
-                                 f"GaussianMixture(n_components={m['k']}, covariance_type={m['ctype']!r}, random_state=42).fit on {m['n']} points "
-                                 f"(case {m['case']['kind']}/{m['case']['wkind']}, d={m['case']['d']}): {m['failed'][pred_name]}",
+                mon_checked.append(1)
+                for pred_name in sorted(again[0] & again[1] & set(gross)):
+                    ck.violation(f"monitor:{pred_name.rstrip('!')}",
+                                 f"MONITORED mixture predicate (EM routine, not decided by the model) {pred_name.rstrip('!')} fails grossly and "
+                                 f"reproducibly on a clearly well-posed input: GaussianMixture(n_components={m['k']}, covariance_type={m['ctype']!r}, "
+                                 f"random_state=42).fit on {m['n']} points of case {m['case']['kind']}/{m['case']['wkind']} d={m['case']['d']} "
+                                 f"scaled={m['case']['scaled']}: {json.dumps(m['failed'][pred_name], default=str)[:300]}",
                                  {"X": m["X"].tolist(), "w": None if m["w"] is None else m["w"].tolist(), "k": m["k"],
                                   "covariance_type": m["ctype"], "case": m["case"], "failed": m["failed"]})
         if o["trace"] is not None:
@@ -1012,9 +1069,12 @@ def main():
         "tlc_coverage": {k: list(v) for k, v in cov_total.items()},
         "monitor:scope": "MONITORING of the numerical EM routine (property sentence 1), not decided by the model: predicates logged for every "
                          "GaussianMixture.fit made inside the real hierarchical fits ('full' and 'diag')",
-        "monitor:rule": "a monitored failure is a violation only if the failing fit's input is clearly well-posed (finite, |x| <= 10, every "
-                        "coordinate of the non-negligibly weighted points spreads >= 1e-3, >= 4k(d+1) distinct such points) and the failure "
-                        "reproduces on two fresh fits of the pristine class; everything else is listed here as a finding",
+        "monitor:rule": "strict predicates (sum within 1e-9, symmetry / min eigenvalue within 1e-12 of the matrix scale, mean within 1e-9 of the "
+                        "bounding box for weight > 1e-6) are logged for every fit and listed below under monitor:<type>:k<components>:<predicate>; a "
+                        "monitored failure is reported as a VIOLATION only if it is gross (non-finite parameters, negative weights, sum off by > 1e-9, "
+                        "asymmetric / indefinite covariance, mean outside the box by > 1e-6 of the data scale), the failing fit's input is clearly "
+                        "well-posed (finite, |x| <= 1e6, finite non-negative weights, >= 4k(d+1) distinct points of non-negligible weight, each of "
+                        "their coordinates spreading >= 1e-3) and it reproduces on two fresh fits of the pristine class",
         "monitor:fits": mon,
     }
     for k, v in sorted(mon_keys.items()):
